@@ -98,6 +98,178 @@ func checkC01(c *Check) {
 	for f := range sub10.funcs {
 		c.SawFunc(f)
 	}
+
+	// R9: the status kept per failed recipient is what the failure report is written from, and the report writer
+	// refuses a recipient block whose status class is 0 – the whole report is then not generated and nothing is handed
+	// to the bounce pipeline. The function producing the kept status must therefore never leave a class-0 enhanced code.
+	c.Rule("R9", "the status stored per failed recipient (QueueMetadata.RcptErrs) always has a non-zero enhanced-code class: in its producer every store of a run-time enhanced code is guarded by a test that the class digit is set, constants have class 4/5 (the report writer refuses class 0: no report would be emitted)", 2)
+	c01StatusClass(c)
+}
+
+// c01StatusClass: see R9.
+func c01StatusClass(c *Check) {
+	p := c.P
+	pk := p.Pkg(queueRel)
+	if pk == nil {
+		c.Fail("R9", "queue", token.NoPos, "undecided: queue package not loaded")
+		return
+	}
+	info := pk.TypesInfo
+	// producers: functions of the package whose result is stored into a RcptErrs element
+	producers := map[*types.Func]bool{}
+	for _, fi := range funcsOfPkgs(p, queueRel) {
+		ast.Inspect(fi.Decl.Body, func(n ast.Node) bool {
+			as, ok := n.(*ast.AssignStmt)
+			if !ok || len(as.Lhs) != len(as.Rhs) {
+				return true
+			}
+			for i, l := range as.Lhs {
+				ix, ok := ast.Unparen(l).(*ast.IndexExpr)
+				if !ok || !isField(info, ix.X, "QueueMetadata", "RcptErrs") {
+					continue
+				}
+				if call, ok := ast.Unparen(as.Rhs[i]).(*ast.CallExpr); ok {
+					if fn := callee(info, call); fn != nil && fn.Pkg() == pk.Types {
+						producers[fn] = true
+					}
+				}
+			}
+			return true
+		})
+	}
+	if len(producers) == 0 {
+		c.Fail("R9", "producers", token.NoPos, "undecided: no function whose result is stored in QueueMetadata.RcptErrs")
+		return
+	}
+	isEnch := func(e ast.Expr) bool {
+		fv := fieldOf(info, e)
+		return fv != nil && objName(fv) == "EnhancedCode"
+	}
+	stripConv := func(e ast.Expr) ast.Expr {
+		for {
+			e = ast.Unparen(e)
+			call, ok := e.(*ast.CallExpr)
+			if !ok || len(call.Args) != 1 {
+				return e
+			}
+			if tv, has := info.Types[call.Fun]; !has || !tv.IsType() {
+				return e
+			}
+			e = call.Args[0]
+		}
+	}
+	constClass := func(e ast.Expr) (int64, bool) {
+		cl, ok := stripConv(e).(*ast.CompositeLit)
+		if !ok || len(cl.Elts) == 0 {
+			return 0, ok // an empty literal is class 0
+		}
+		return constInt(info.Types[cl.Elts[0]])
+	}
+	for fn := range producers {
+		fi := p.DeclOf(fn)
+		if fi == nil || fi.Decl.Body == nil {
+			continue
+		}
+		c.SawFunc(fi.Name())
+		r := c.CtxOf(fi)
+		n := 0
+		judge := func(pt Pt, pos token.Pos, rhs ast.Expr, what string) {
+			n++
+			key := fi.Name() + ":" + what + itoa(n)
+			if cls, isConst := constClass(rhs); isConst {
+				c.Hold("R9", key, pos, cls == 4 || cls == 5, "the kept status gets the constant enhanced-code class "+itoa(int(cls))+": the failure report for the recipient cannot be written")
+				return
+			}
+			src := exprStr(stripConv(rhs))
+			key = fi.Name() + ":" + what + ":" + src
+			guard := r.F.AvoidImplying(func(atom ast.Expr) (bool, bool) {
+				be, ok := ast.Unparen(atom).(*ast.BinaryExpr)
+				if !ok {
+					return false, false
+				}
+				// src[0] != 0, src[0] > 0, src[0] == 0 ; src != T{} / src == T{}
+				x := ast.Unparen(be.X)
+				if ix, isIx := x.(*ast.IndexExpr); isIx {
+					if i0, ok := constInt(info.Types[ix.Index]); !ok || i0 != 0 || exprStr(ast.Unparen(ix.X)) != src {
+						return false, false
+					}
+					z, ok := constInt(info.Types[be.Y])
+					if !ok {
+						return false, false
+					}
+					switch {
+					case z == 0 && (be.Op == token.NEQ || be.Op == token.GTR):
+						return true, true
+					case z == 0 && (be.Op == token.EQL || be.Op == token.LEQ):
+						return false, true
+					case z >= 1 && be.Op == token.GEQ:
+						return true, true
+					case z >= 1 && be.Op == token.LSS:
+						return false, true
+					}
+					return false, false
+				}
+				if exprStr(x) == src {
+					if cl, isLit := ast.Unparen(be.Y).(*ast.CompositeLit); isLit && len(cl.Elts) == 0 {
+						switch be.Op {
+						case token.NEQ:
+							return true, true
+						case token.EQL:
+							return false, true
+						}
+					}
+				}
+				return false, false
+			})
+			path, f := r.F.Reach(Query{From: r.Entry(), Inclusive: true, Target: func(q Pt) bool { return q == pt }, AvoidEdge: guard})
+			c.Hold("R9", key, pos, !f, "the enhanced code "+src+" is copied into the kept status without a test that its class digit is set: a failure whose reply carries no enhanced code (class 0) is stored as such, the report writer refuses it, and no failure report is emitted for the recipients of that attempt: "+r.F.Describe(path))
+		}
+		for _, pt := range r.F.Points() {
+			switch x := pt.Node().(type) {
+			case *ast.AssignStmt:
+				if len(x.Lhs) != len(x.Rhs) {
+					continue
+				}
+				for i, l := range x.Lhs {
+					l = ast.Unparen(l)
+					if isEnch(l) {
+						judge(pt, x.Pos(), x.Rhs[i], "store")
+					} else if ix, ok := l.(*ast.IndexExpr); ok && isEnch(ix.X) {
+						if i0, ok := constInt(info.Types[ix.Index]); ok && i0 == 0 {
+							n++
+							v, isConst := constInt(info.Types[x.Rhs[i]])
+							c.Hold("R9", fi.Name()+":class"+itoa(n), x.Pos(), isConst && (v == 4 || v == 5), "the class digit of the kept status is set to something other than the constants 4 / 5")
+						}
+					}
+				}
+			}
+			// literals of the status type with an EnhancedCode element
+			if nd := pt.Node(); nd != nil {
+				ast.Inspect(nd, func(y ast.Node) bool {
+					if _, isLit := y.(*ast.FuncLit); isLit {
+						return false
+					}
+					cl, ok := y.(*ast.CompositeLit)
+					if !ok {
+						return true
+					}
+					for _, el := range cl.Elts {
+						if kv, ok := el.(*ast.KeyValueExpr); ok {
+							if id, ok := kv.Key.(*ast.Ident); ok && id.Name == "EnhancedCode" {
+								if fv, ok := info.Uses[id].(*types.Var); ok && fv.IsField() {
+									judge(pt, kv.Pos(), kv.Value, "literal")
+								}
+							}
+						}
+					}
+					return true
+				})
+			}
+		}
+		if n < 2 {
+			c.Fail("R9", fi.Name()+":stores", fi.Decl.Pos(), "undecided: fewer than two stores of an enhanced code in the producer of the kept status")
+		}
+	}
 }
 
 func c01Deliver(c *Check) {
@@ -475,14 +647,47 @@ func c01CommitGuard(c *Check, r *RuleCtx, commitPts []Pt) {
 	var flag types.Object
 	var flipped bool // the value the flag has once a success was seen
 	okShape := false
+	var flipStmt *ast.AssignStmt // the flip written as `flag = <recorded error> != nil` in a loop guarded by the flag
 	for _, l := range elemLoops(info, r.FI.Decl.Body, func(e ast.Expr) bool {
 		sl, ok := info.TypeOf(e).Underlying().(*types.Slice)
 		return ok && isStringType(sl.Elem())
 	}) {
+		l := l
+		if !l.Whole && l.Guard != nil {
+			// for i := 0; i < len(L) && flag; i++ { flag = Errs[L[i]] != nil }: the loop stops at the first success, so
+			// the flag has flipped exactly if one was seen (the mirrored form `!flag … == nil` likewise)
+			for _, st := range l.Body.List {
+				as, ok := st.(*ast.AssignStmt)
+				if !ok || len(as.Lhs) != 1 || len(as.Rhs) != 1 || as.Tok != token.ASSIGN {
+					continue
+				}
+				be, ok := ast.Unparen(as.Rhs[0]).(*ast.BinaryExpr)
+				if !ok || (be.Op != token.NEQ && be.Op != token.EQL) || !isNilIdent(info, be.Y) {
+					continue
+				}
+				ix, ok := ast.Unparen(be.X).(*ast.IndexExpr)
+				if !ok || !isField(info, ix.X, "partialError", "Errs") || !l.IsElem(ix.Index) {
+					continue
+				}
+				v, isVar := objOf(info, as.Lhs[0]).(*types.Var)
+				if !isVar || v.IsField() {
+					continue
+				}
+				fl := be.Op == token.EQL // value of the flag once a recipient without error was seen
+				g := ast.Unparen(l.Guard)
+				neg := false
+				if ue, ok := g.(*ast.UnaryExpr); ok && ue.Op == token.NOT {
+					g, neg = ast.Unparen(ue.X), true
+				}
+				// the loop continues only while the flag still has its "no success" value
+				if objOf(info, g) == v && neg == fl {
+					flag, flipped, okShape, flipStmt = v, fl, true, as
+				}
+			}
+		}
 		if !l.Whole {
 			continue
 		}
-		l := l
 		ast.Inspect(l.Body, func(x ast.Node) bool {
 			is, ok := x.(*ast.IfStmt)
 			if !ok {
@@ -521,6 +726,9 @@ func c01CommitGuard(c *Check, r *RuleCtx, commitPts []Pt) {
 			for i, l := range as.Lhs {
 				if objOf(info, l) == flag && i < len(as.Rhs) {
 					nAssign++
+					if as == flipStmt {
+						continue
+					}
 					tv, ok := info.Types[as.Rhs[i]]
 					if !ok || tv.Value == nil || tv.Value.Kind() != constant.Bool {
 						badAssign = "the flag is assigned a non-constant value"
